@@ -129,6 +129,80 @@ Theorem C18_move_replace_faults : forall F s src dst tmp i c s' r,
 Proof. exact move_replace_f_safe. Qed.
 Print Assumptions C18_move_replace_faults.
 
+(** ** The second alias policy: when the destination IS the source, CopyFile does nothing and returns nil
+    ("the destination already holds the bytes") instead of refusing.  Everything of C18_copy_faults /
+    C18_copy_replace_faults holds; a nil result now means: the destination reads [c], and it is a
+    different file OR nothing at all was touched and it is the source itself. *)
+Theorem C18_copy_noop_faults : forall F s src dst i c s' r,
+  wf s -> stat s src = Ok i -> inode s i = Some (File c) -> stat_fault_harmless F s dst i ->
+  copy_file_n F s src dst = (s', r) ->
+  (r = None -> read_path s' dst = Some c /\ (stat s' dst <> Ok i \/ (s' = s /\ stat s dst = Ok i)))
+  /\ read_path s' src = Some c
+  /\ stat s' src = Ok i /\ inode s' i = Some (File c)
+  /\ (forall j n, inode s j = Some n -> stat s dst <> Ok j -> inode s' j = Some n)
+  /\ (forall e, slot s e <> Empty -> slot s' e = slot s e)
+  /\ (forall d old, stat s dst = Ok d -> inode s d = Some (File old) ->
+        inode s' d = Some (File old) \/ exists k, inode s' d = Some (File (firstn k c))).
+Proof. exact copy_file_n_safe. Qed.
+Print Assumptions C18_copy_noop_faults.
+
+Theorem C18_copy_replace_noop_faults : forall F s src dst tmp i c s' r,
+  wf s -> stat s src = Ok i -> inode s i = Some (File c) -> stat_fault_harmless F s dst i -> tmp <> dst ->
+  copy_replace_n F s src dst tmp = (s', r) ->
+  (r = None -> read_path s' dst = Some c /\ (stat s' dst <> Ok i \/ (s' = s /\ stat s dst = Ok i)))
+  /\ read_path s' src = Some c
+  /\ stat s' src = Ok i /\ inode s' i = Some (File c)
+  /\ (forall j n, inode s j = Some n -> inode s' j = Some n)
+  /\ (forall e, e <> dst -> e <> tmp -> slot s' e = slot s e)
+  /\ (r <> None -> slot s' dst = slot s dst).
+Proof. exact copy_replace_n_safe. Qed.
+Print Assumptions C18_copy_replace_noop_faults.
+
+(** MoveFile over a no-op CopyFile: after a failed rename it must itself test whether the destination
+    names the source and then return the rename error (so the covered behaviours on an alias are: the
+    rename of two names of one file succeeds without effect, or MoveFile refuses) — otherwise the no-op
+    "copy" would be followed by the removal of the only copy ([move_noop_without_test_refuted]).  With
+    the test, [move_statement] — literally the conclusion of C18_move_faults — holds for every fault
+    oracle; [move_alias_harmless] excludes, like [stat_fault_harmless], a spurious failure of the test's
+    own Stat calls while the destination really is the source. *)
+Theorem C18_move_noop_faults : forall F s src dst i c s' r,
+  wf s -> slot s src = Link i -> inode s i = Some (File c) ->
+  stat_fault_harmless F s dst i -> move_alias_harmless F s dst i ->
+  move_file_n F s src dst = (s', r) ->
+  (r = None ->
+     read_path s' dst = Some c
+     /\ (slot s' src = Empty \/ (stat s dst = Ok i /\ slot s' src = Link i /\ inode s' i = Some (File c))))
+  /\ (r <> None -> slot s' src = Link i /\ inode s' i = Some (File c))
+  /\ (forall j n, inode s j = Some n -> stat s dst <> Ok j -> inode s' j = Some n)
+  /\ (slot s' src = Empty -> read_path s' dst = Some c).
+Proof. exact move_file_n_safe. Qed.
+Print Assumptions C18_move_noop_faults.
+
+Theorem C18_move_replace_noop_faults : forall F s src dst tmp i c s' r,
+  wf s -> slot s src = Link i -> inode s i = Some (File c) ->
+  stat_fault_harmless F s dst i -> move_alias_harmless F s dst i -> tmp <> dst ->
+  move_replace_n F s src dst tmp = (s', r) ->
+  (r = None ->
+     read_path s' dst = Some c
+     /\ (slot s' src = Empty \/ (stat s dst = Ok i /\ slot s' src = Link i /\ inode s' i = Some (File c))))
+  /\ (r <> None -> slot s' src = Link i /\ inode s' i = Some (File c))
+  /\ (forall j n, inode s j = Some n -> stat s dst <> Ok j -> inode s' j = Some n)
+  /\ (slot s' src = Empty -> read_path s' dst = Some c).
+Proof. exact move_replace_n_safe. Qed.
+Print Assumptions C18_move_replace_noop_faults.
+
+(** A no-op CopyFile under the unchanged MoveFile (no alias test of its own) loses the file: destination a
+    symbolic link to the source on another device — rename fails, the "copy" succeeds without copying,
+    the source is removed, the link dangles. *)
+Theorem move_noop_without_test_refuted :
+  exists s src dst i c,
+    wf s /\ slot s src = Link i /\ inode s i = Some (File c) /\ c <> []
+    /\ snd (move_unchecked_n no_faults s src dst) = None
+    /\ slot (fst (move_unchecked_n no_faults s src dst)) src = Empty
+    /\ read_path (fst (move_unchecked_n no_faults s src dst)) dst = None.
+Proof. exact move_unchecked_noop_loses. Qed.
+Print Assumptions move_noop_without_test_refuted.
+
 (** The excluded fault is a real window of the present code: with only os.Stat(dest) failing and
     dest an alias of the source, CopyFile returns nil and the non-empty source reads as empty. *)
 Theorem copy_stat_fault_on_alias_refuted :
@@ -203,6 +277,15 @@ Example C18_strategies_differ :
   model_fields_for 0 0 11 0 0 1 = [false; true; true; false; true]
   /\ model_fields_for 1 0 11 0 0 1 = [true; true; true; true; true].
 Proof. vm_compute. split; reflexivity. Qed.
+
+(** the two alias policies differ exactly on CopyFile onto the source itself (here: a hard link): refused / nil, nothing touched;
+    MoveFile onto a symbolic link to the source on another device is refused under both *)
+Example C18_alias_policies_differ :
+  model_fields_for 0 0 5 0 0 1 = [false; true; true; true; true]
+  /\ model_fields_for 2 0 5 0 0 1 = [true; true; true; true; true]
+  /\ model_fields_for 0 1 4 1 0 1 = model_fields_for 2 1 4 1 0 1
+  /\ model_fields_for 2 1 4 1 0 1 = [false; true; true; true; true].
+Proof. vm_compute. repeat split; reflexivity. Qed.
 
 (** PARTIAL.  Proved: the statements above, for every file system state, aliasing relation,
     content and fault oracle (with the one excluded fault named above), under the system-call
